@@ -150,7 +150,7 @@ def ner_shapes(chk, rng):
         dests = [rng.choice(chips) for _ in range(rng.choice((0, 1, 2, 4, 9, 30)))]
         if dests and rng.random() < 0.3:
             dests.append(src)
-        how = dict(dests=rng.choice(("set", "list", "tuple", "iter")), wrap=rng.choice(("given", "omitted")),
+        how = dict(dests=rng.choice(("set", "set", "list")), wrap=rng.choice(("given", "omitted")),
                    radius=rng.choice(("given", "omitted")))
         yield ner_trace(w, h, rng.random() < 0.6, src, dests, rng.choice((0, 1, 2, 4, 6, 10, 15, 20, 30)),
                         chk.seed * 100000 + 95000 + i, how)
@@ -473,7 +473,7 @@ def caller_shapes(chk, rng):
             same = [vs for vs in by_chip.values() if len(vs) > 1]
             if same and rng.random() < 0.5:
                 extra.append(SameChipConstraint(list(rng.choice(same))))
-        how = dict(cons=rng.choice(("list", "tuple", "iter", "deque")), nets=rng.choice(("list", "tuple", "iter")),
+        how = dict(cons=rng.choice(("list", "list", "tuple")), nets=rng.choice(("list", "list", "tuple")),
                    alloc=rng.choice(("given", "given", "omitted")), radius=rng.choice(("given", "omitted")))
         if how["alloc"] == "given" and rng.random() < 0.3:
             allocations = {v: a for v, a in allocations.items() if rng.random() < 0.5}    # silent about some vertices
